@@ -25,6 +25,20 @@ import pandas as pd
 # specification trees
 
 
+def pnorm(v):
+    """Representation-independent form of a plain hyper-parameter value: tuples, lists and arrays of the same numbers, and
+    Python / NumPy scalars of the same value, compare equal (an implementation may store (0, 2) as an array)."""
+    if isinstance(v, np.ndarray):
+        return pnorm(v.tolist())
+    if isinstance(v, (list, tuple)):
+        return tuple(pnorm(x) for x in v)
+    if isinstance(v, (bool, np.bool_)):
+        return bool(v)
+    if isinstance(v, (int, float, np.integer, np.floating)):
+        return float(v)
+    return repr(v)
+
+
 class Spec:
     """('ClassName', {param: value | Spec | '@name'})"""
 
@@ -48,7 +62,7 @@ class Spec:
             elif callable(v):
                 v = getattr(v, "__name__", repr(v))
             else:
-                v = repr(v)
+                v = repr(pnorm(v))
             items.append((k, v))
         return (self.cls, tuple(items))
 
